@@ -350,7 +350,7 @@ def _include_table(f):
                 and "include" in ast.unparse(st.targets[0] if isinstance(st, ast.Assign) else st.target):
             rows += [(ast.unparse(e), terms, st.lineno) for e in st.value.elts]
         elif isinstance(st, ast.Return) and st.value is not None:
-            for comp in [c for c in ast.walk(st.value) if isinstance(c, (ast.ListComp, ast.GeneratorExp, ast.SetComp))]:
+            for comp in [c for c in ast.walk(pyfront.subst_locals(f.node, st.value)) if isinstance(c, (ast.ListComp, ast.GeneratorExp, ast.SetComp))]:
                 if len(comp.generators) != 1:
                     continue
                 g = comp.generators[0]
